@@ -2,6 +2,7 @@
 CONSTANTS
   Mods = {"A"}
   Order <- Order1
+  Collide = FALSE
   Hooks <- Hooks_none1
   Flags <- Flags_none
   CtxPersist = TRUE
